@@ -675,9 +675,10 @@ func genFingerOrder() {
 		"os.Remove", "os.Open", "checker.checksum", "checker.checksumFilePath", "checker.timestampFilePath", // (checker: the receiver)
 		"Globs", "glob", "collectKeys", "getMaxTime", "anyFileNewerThan", "time.Now", "normalizeFilename",
 		"filepath.Base", "filepath.Rel", "filepath.ToSlash", "filepath.Join", "io.CopyBuffer", "xxh3.New", "(xxh3.New).Sum128", "sort.Strings",
+		"binary.Write", "(xxh3.New·1).Sum64", // the second hasher of ChecksumChecker.checksum: the length table
 		"execext.ExpandFields", "execext.RunCommand", "(&CheckerConfig{}).statusChecker.IsUpToDate",
 		"(&CheckerConfig{}).sourcesChecker.IsUpToDate", "NewSourcesChecker", "NewStatusChecker", "t.Name",
-		"strings.TrimSpace", "append", "stateFilename", "fmt.Sprintf", "xxh3.HashString",
+		"strings.TrimSpace", "append", "stateFilename", "checksumFilename", "fmt.Sprintf", "xxh3.HashString",
 		"(func·0)") // the closure `touchMarker` of TimestampChecker.IsUpToDate: the first function literal of the body
 	var swallowed [][2]string
 	for _, f := range [][2]string{
@@ -689,6 +690,7 @@ func genFingerOrder() {
 		{"TimestampChecker.OnError", "timestampOnError"},
 		{"TimestampChecker.timestampFilePath", "timestampPath"},
 		{"stateFilename", "stateFilename"},
+		{"checksumFilename", "checksumFilename"},
 		{"IsTaskUpToDate", "isTaskUpToDate"},
 		{"Globs", "globs"},
 		{"glob", "glob"},
@@ -718,24 +720,64 @@ func genFingerOrder() {
 	}
 	l.pairList("swallowedErrReturns", swallowed)
 
-	// the NAME hashed with every source file, as one fact with shared placeholders: the statement
-	// that calls filepath.Rel, the assignment taken when that fails (the `if` on its error variable),
-	// and the reader handed to the first io.CopyBuffer
-	var nameFacts []string
+	// the NAME hashed with every source file, and WHAT IS FED TO WHICH HASHER, as facts with shared
+	// placeholders (renumbered together: ‹0› is the name in both lists).
+	//   checksumName: the statement that calls filepath.Rel, the assignment taken when that fails (the
+	//     `if` on its error variable), the statement that applies filepath.ToSlash, and the reader
+	//     handed to the first io.CopyBuffer;
+	//   checksumFeed: in source order every io.CopyBuffer, every binary.Write and every
+	//     Write / WriteString on a local hasher, printed whole (an assignment from such a call is printed
+	//     as the assignment, so that the byte count of the content copy is the placeholder the length
+	//     record uses); then the expression returned with a nil error.
+	var nameFacts, feedFacts []string
 	if fd := fp.funcDecl("ChecksumChecker.checksum"); fd != nil && fd.Body != nil {
 		f := fnormOf(fd)
-		rel, fallback, hashed := "", "", ""
+		rel, fallback, slash, hashed := "", "", "", ""
+		var feed []string
+		fed := func(ce *ast.CallExpr) bool {
+			switch c := src(ce.Fun); {
+			case c == "io.CopyBuffer", c == "binary.Write":
+				return true
+			default:
+				if se, ok := ce.Fun.(*ast.SelectorExpr); ok && (se.Sel.Name == "Write" || se.Sel.Name == "WriteString") {
+					return f.obj(se.X) != nil
+				}
+			}
+			return false
+		}
+		// in the feed facts a hasher (a local made by xxh3.New) and the sum taken from one are printed by
+		// their ORIGIN also in argument position: `(xxh3.New)` the first, `(xxh3.New·1)` the second
+		byOrigin := func(n ast.Node) string {
+			return f.textWith(n, func(o *ast.Object) (string, bool) {
+				if org := f.origin(o); strings.Contains(org, "xxh3.New") {
+					return "(" + org + ")", true
+				}
+				return "", false
+			})
+		}
+		done := map[*ast.CallExpr]bool{}
 		ast.Inspect(fd, func(n ast.Node) bool {
 			switch x := n.(type) {
 			case *ast.AssignStmt:
-				if len(x.Rhs) == 1 && rel == "" {
-					if ce, ok := x.Rhs[0].(*ast.CallExpr); ok && src(ce.Fun) == "filepath.Rel" {
-						rel = f.text(x)
+				if len(x.Rhs) == 1 {
+					if ce, ok := x.Rhs[0].(*ast.CallExpr); ok {
+						switch {
+						case src(ce.Fun) == "filepath.Rel" && rel == "":
+							rel = f.text(x)
+						case src(ce.Fun) == "filepath.ToSlash" && slash == "":
+							slash = f.text(x)
+						case fed(ce):
+							done[ce] = true
+							feed = append(feed, "feed: "+byOrigin(x))
+						}
 					}
 				}
 			case *ast.CallExpr:
 				if src(x.Fun) == "io.CopyBuffer" && hashed == "" && len(x.Args) >= 2 {
 					hashed = f.text(x.Args[1])
+				}
+				if fed(x) && !done[x] {
+					feed = append(feed, "feed: "+byOrigin(x))
 				}
 			case *ast.IfStmt:
 				if rel != "" && fallback == "" && f.mentionsErr(x.Cond) && len(x.Body.List) == 1 {
@@ -743,12 +785,19 @@ func genFingerOrder() {
 						fallback = f.text(as)
 					}
 				}
+			case *ast.ReturnStmt:
+				if len(x.Results) == 2 && src(x.Results[1]) == "nil" {
+					feed = append(feed, "sum: "+byOrigin(x.Results[0]))
+				}
 			}
 			return true
 		})
-		nameFacts = renumber([]string{"rel: " + rel, "fallback: " + fallback, "hashed: " + hashed})
+		names := []string{"rel: " + rel, "fallback: " + fallback, "slash: " + slash, "hashed: " + hashed}
+		all := renumber(append(names, feed...))
+		nameFacts, feedFacts = all[:len(names)], all[len(names):]
 	}
 	l.strList("checksumName", nameFacts)
+	l.strList("checksumFeed", feedFacts)
 
 	// file naming
 	re := ""
@@ -793,8 +842,8 @@ func genFingerOrder() {
 					return true
 				}
 				switch src(ce.Fun) {
-				case "normalizeFilename", "stateFilename":
-					// which function names the state file, and of what: `stateFilename(t.Name())`
+				case "normalizeFilename", "stateFilename", "checksumFilename":
+					// which function names the state file, and of what: `checksumFilename(t)`, `stateFilename(t.Task)`
 					key = src(ce.Fun) + "(" + srcList(ce.Args) + ")"
 				case "filepath.Join":
 					var lits []string
